@@ -31,6 +31,11 @@ func (x Expr) MustRemove(data any) any {
 	if len(sx) == 0 {
 		sx = Expr{Root(0)}
 	}
+	if f, ok := last.(*Filter); ok {
+		// A $ in the filter script refers to the data, as it does for Get.
+		match := func(v any) bool { return f.matchWithRoot(v, data) }
+		return sx.modify(data, func(e any) (any, bool) { return f.removeMatching(e, match) }, false)
+	}
 	if r, ok := last.(remover); ok {
 		return sx.modify(data, r.remove, false)
 	}
@@ -51,6 +56,10 @@ func (x Expr) MustRemoveOne(data any) any {
 	sx := x[:len(x)-1]
 	if len(sx) == 0 {
 		sx = Expr{Root(0)}
+	}
+	if f, ok := last.(*Filter); ok {
+		match := func(v any) bool { return f.matchWithRoot(v, data) }
+		return sx.modify(data, func(e any) (any, bool) { return f.removeOneMatching(e, match) }, true)
 	}
 	if r, ok := last.(oneRemover); ok {
 		return sx.modify(data, r.removeOne, true)
